@@ -123,3 +123,37 @@ Proof.
   destruct (In_nth_error _ _ Hm) as [k Hk].
   apply (link_keeps_every_comment (map snd frs) (fragment_all_unattached _ _ _ _ _ _ _ _ H) Hp k d ind None Hk).
 Qed.
+
+(* ---- newline discovery ------------------------------------------------------------------------- *)
+Local Open Scope Z_scope.
+(* line breaks a newline fragment stands for *)
+Definition nl_weight (it : pitem) : Z := match snd it with PNl true => 2 | PNl false => 1 | _ => 0 end.
+Definition breaks (l : list pitem) : Z := fold_right (fun it acc => nl_weight it + acc) 0 l.
+
+(* With nothing to avoid, the newline fragments account for every line start after the first:
+   an empty-line fragment for two adjacent line starts, a newline fragment otherwise. *)
+Lemma newlines_counts_fuel fi : forall n rest k,
+  (List.length rest <= n)%nat ->
+  Forall (fun o => o < fi_size fi - 1) rest ->
+  breaks (newlines fi [] rest k) = Z.of_nat (List.length rest).
+Proof.
+  induction n as [|n IH]; intros rest k Hn Hall.
+  - destruct rest; [reflexivity|cbn in Hn; lia].
+  - destruct rest as [|o r]; [reflexivity|].
+    inversion Hall as [|? ? Ho Hr]; subst.
+    cbn [newlines existsb].
+    assert (E1 : Z.ltb o (fi_size fi) = true) by (apply Z.ltb_lt; lia). rewrite E1. cbn [negb].
+    destruct r as [|o2 r2].
+    + reflexivity.
+    + assert (E2 : Z.ltb o (fi_size fi - 1) = true) by (apply Z.ltb_lt; lia). rewrite E2, andb_true_r.
+      destruct (Z.eqb o2 (o + 1)).
+      * cbn [breaks fold_right nl_weight snd]. fold (breaks (newlines fi [] r2 (k + 2))).
+        inversion Hr; subst. rewrite IH; [cbn [List.length]; lia|cbn [List.length] in Hn; lia|assumption].
+      * cbn [breaks fold_right nl_weight snd]. fold (breaks (newlines fi [] (o2 :: r2) (k + 1))).
+        rewrite IH; [cbn [List.length]; lia|cbn [List.length] in *; lia|assumption].
+Qed.
+
+Theorem newlines_count_every_line_break fi rest k :
+  Forall (fun o => o < fi_size fi - 1) rest ->
+  breaks (newlines fi [] rest k) = Z.of_nat (List.length rest).
+Proof. apply (newlines_counts_fuel fi (List.length rest)). lia. Qed.
